@@ -3,7 +3,7 @@
 From Coq Require Import List Bool Arith NArith ZArith Sorting.Sorted Sorting.Permutation.
 From Coq Require Import Strings.String.
 From LLIR Require Import Lib.Bytes Model.Natsort Model.Assemble Gen.Printers Model.GoEval.
-From LLIR Require Import Proofs.NatsortProofs Proofs.AssembleProofs Proofs.ObserverProofs.
+From LLIR Require Import Proofs.NatsortProofs Proofs.NatsortNumeric Proofs.AssembleProofs Proofs.ObserverProofs.
 Import ListNotations.
 Local Open Scope list_scope.
 
@@ -29,6 +29,31 @@ Theorem C20_digit_runs_by_value : forall d1 z1 d2 z2,
   tok_ltb (Num d1 z1) (Num d2 z2) = true <->
   (dval d1 < dval d2)%N \/ (dval d1 = dval d2 /\ z1 < z2).
 Proof. exact num_tok_numeric. Qed.
+
+(* the same on whole strings: two names that agree up to a digit run (p is empty or ends in a non-digit, the
+   runs a and b are complete: what follows does not start with a digit) are ordered by the value of the
+   run, then by the number of leading zeros, then by what follows *)
+Theorem C20_less_by_digit_run : forall p a b r r',
+  end_nd p = true -> a <> [] -> b <> [] -> digitsb a = true -> digitsb b = true ->
+  start_nd r = true -> start_nd r' = true ->
+  less (p ++ a ++ r) (p ++ b ++ r') =
+    if (dval a <? dval b)%N then true
+    else if (dval b <? dval a)%N then false
+    else if Nat.ltb (zeros a) (zeros b) then true
+    else if Nat.ltb (zeros b) (zeros a) then false
+    else less r r'.
+Proof. exact less_by_digit_run. Qed.
+Theorem C20_less_numeric : forall p a b r r',
+  end_nd p = true -> a <> [] -> b <> [] -> digitsb a = true -> digitsb b = true ->
+  start_nd r = true -> start_nd r' = true -> (dval a < dval b)%N ->
+  less (p ++ a ++ r) (p ++ b ++ r') = true.
+Proof. exact less_numeric. Qed.
+Example C20_example_numeric :
+  end_nd (bytes_of_string "t.") = true /\ digitsb (bytes_of_string "9") = true /\
+  digitsb (bytes_of_string "0010") = true /\ start_nd (bytes_of_string ".x") = true /\ start_nd [] = true /\
+  (dval (bytes_of_string "9") < dval (bytes_of_string "0010"))%N /\
+  less (bytes_of_string "t.9.x") (bytes_of_string "t.0010") = true.
+Proof. vm_compute. repeat split. Qed.
 
 (* type definitions, comdats, named metadata: whatever order the Go map is iterated in and whichever
    correct sort is used, the assembled slice is the same *)
